@@ -177,4 +177,95 @@ theorem luma16_recon (mbx mby lumaMode : Nat) (hm : lumaMode ≠ 4) (bmodes : Ar
   exact h.2.1 r c hr hc (by omega)
 
 
+
+/-! ### the chroma planes of a macroblock -/
+
+/-- index of sample (r, c) of the macroblock in the 9 x 9 chroma workspace -/
+def at8 (r c : Nat) : Nat := (1 + r) * 9 + 1 + c
+
+theorem cell_block8 (i k : Nat) :
+    cell (1 + (i / 2) * 4) (1 + (i % 2) * 4) 9 k = at8 ((i / 2) * 4 + k / 4) ((i % 2) * 4 + k % 4) := by
+  unfold cell at8; omega
+
+theorem at8_inj (r c r' c' : Nat) (hc : c < 8) (hc' : c' < 8) (h : at8 r c = at8 r' c') : r = r' ∧ c = c' := by
+  unfold at8 at h; omega
+
+def After8 (res : Array Int) (first : Nat) (P : Array Nat) (n : Nat) (ws : Array Nat) : Prop :=
+  ws.size = P.size ∧
+  (∀ r c, r < 8 → c < 8 → (r / 4) * 2 + c / 4 < n →
+    ws.getD (at8 r c) 0 = clampByte (res.getD (16 * (first + ((r / 4) * 2 + c / 4)) + 4 * (r % 4) + c % 4) 0 + P.getD (at8 r c) 0)) ∧
+  (∀ q, (∀ r c, r < 8 → c < 8 → (r / 4) * 2 + c / 4 < n → at8 r c ≠ q) → ws.getD q 0 = P.getD q 0)
+
+theorem after8_step (res : Array Int) (first : Nat) (hf : first ≤ 20) (P ws : Array Nat) (n : Nat) (hn : n < 4) (hP : P.size = 81) (hres : res.size = 384)
+    (h : After8 res first P n ws) :
+    After8 res first P (n + 1) (addResidue ws (block res (first + n)) (1 + (n / 2) * 4) (1 + (n % 2) * 4) 9) := by
+  obtain ⟨hs, hin, hout⟩ := h
+  obtain ⟨a1, a2, a3⟩ := addResidue_spec ws (block res (first + n)) (1 + (n / 2) * 4) (1 + (n % 2) * 4) 9 (by omega)
+  refine ⟨a1.trans hs, ?_, ?_⟩
+  · intro r c hr hc hlt
+    by_cases hb : (r / 4) * 2 + c / 4 = n
+    · have hk : 4 * (r % 4) + c % 4 < 16 := by omega
+      have hcell := cell_block8 n (4 * (r % 4) + c % 4)
+      have x1 : (n / 2) * 4 + (4 * (r % 4) + c % 4) / 4 = r := by omega
+      have x2 : (n % 2) * 4 + (4 * (r % 4) + c % 4) % 4 = c := by omega
+      rw [x1, x2] at hcell
+      have hlt' : cell (1 + (n / 2) * 4) (1 + (n % 2) * 4) 9 (4 * (r % 4) + c % 4) < ws.size := by
+        rw [hcell, hs, hP]; unfold at8; omega
+      have := a2 _ hk hlt'
+      rw [hcell] at this
+      rw [this, block_getD res (first + n) _ hk (by omega)]
+      have hprev : ws.getD (at8 r c) 0 = P.getD (at8 r c) 0 := hout _ (fun r' c' hr' hc' hlt' e => by
+        obtain ⟨e1, e2⟩ := at8_inj r' c' r c hc' hc e
+        subst e1 e2; omega)
+      rw [hprev, ← hb, Nat.add_assoc]
+    · have hlt2 : (r / 4) * 2 + c / 4 < n := by omega
+      have hne : ∀ k, k < 16 → cell (1 + (n / 2) * 4) (1 + (n % 2) * 4) 9 k ≠ at8 r c := by
+        intro k hk e
+        rw [cell_block8 n k] at e
+        obtain ⟨e1, e2⟩ := at8_inj _ _ r c (by omega) hc e
+        apply hb; subst e1 e2; omega
+      rw [a3 _ hne]
+      exact hin r c hr hc hlt2
+  · intro q hq
+    have hne : ∀ k, k < 16 → cell (1 + (n / 2) * 4) (1 + (n % 2) * 4) 9 k ≠ q := by
+      intro k hk e
+      rw [cell_block8 n k] at e
+      exact hq ((n / 2) * 4 + k / 4) ((n % 2) * 4 + k % 4) (by omega) (by omega) (by omega) e
+    rw [a3 _ hne]
+    exact hout q (fun r c hr hc hlt => hq r c hr hc (by omega))
+
+theorem after8_all (res : Array Int) (first : Nat) (hf : first ≤ 20) (P : Array Nat) (hP : P.size = 81) (hres : res.size = 384) :
+    ∀ n, n ≤ 4 → After8 res first P n ((List.range n).foldl (fun ws i => addResidue ws (block res (first + i)) (1 + (i / 2) * 4) (1 + (i % 2) * 4) 9) P) := by
+  intro n
+  induction n with
+  | zero => intro _; exact ⟨rfl, fun r c _ _ h => by omega, fun q _ => rfl⟩
+  | succ n ih =>
+    intro hn
+    rw [List.range_succ, List.foldl_append, List.foldl_cons, List.foldl_nil]
+    exact after8_step res first hf P _ n (by omega) hP hres (ih (by omega))
+
+/-- **a chroma plane of a macroblock is reconstructed as `clamp(prediction + residue)`** sample by sample -/
+theorem chroma_recon (mbx mby chromaMode first : Nat) (hf : first ≤ 20) (res : Array Int) (ws : Array Nat)
+    (hres : res.size = 384) (hws : ws.size = 81) :
+    let P := match chromaMode with
+      | 1 => Vp8Pred.predict 10 ws 8 1 1 9 true true
+      | 2 => Vp8Pred.predict 11 ws 8 1 1 9 true true
+      | 3 => Vp8Pred.predict 1 ws 8 1 1 9 true true
+      | _ => Vp8Pred.predict 12 ws 8 1 1 9 (mby != 0) (mbx != 0)
+    ∀ r c, r < 8 → c < 8 →
+      (chromaRecon mbx mby chromaMode first res ws).getD (at8 r c) 0 =
+        clampByte (res.getD (16 * (first + ((r / 4) * 2 + c / 4)) + 4 * (r % 4) + c % 4) 0 + P.getD (at8 r c) 0) := by
+  intro P r c hr hc
+  have hP : P.size = 81 := by
+    simp only [P]
+    split <;> rw [predict_size] <;> exact hws
+  have h := after8_all res first hf P hP hres 4 (by omega)
+  have e : chromaRecon mbx mby chromaMode first res ws =
+      (List.range 4).foldl (fun ws i => addResidue ws (block res (first + i)) (1 + (i / 2) * 4) (1 + (i % 2) * 4) 9) P := by
+    unfold chromaRecon
+    rfl
+  rw [e]
+  exact h.2.1 r c hr hc (by omega)
+
+
 end Vp8IntraProof
